@@ -23,6 +23,8 @@ def _same(a, b):
         return And([_same(x, y) for x, y in zip(a, b)] or [True])
     if a is None or b is None:
         return a is None and b is None
+    if not core.is_sym(a) and not core.is_sym(b) and type(a) is not type(b):
+        return False                      # 1, True and 1.0 are different results
     if isinstance(a, bool) or isinstance(b, bool):
         if core.is_sym(a) or core.is_sym(b):
             return Eq(a, b)
@@ -44,7 +46,7 @@ def _elt(inp, name, hi=ELT_HI):
 
 
 # ---------------------------------------------------------------------------------------
-LIST_OPS = ('append', 'insert', 'remove', 'pop', 'pop_default', 'set', 'setitem', 'extend', 'sort', 'sort_rev', 'index', 'count', 'get', 'reset')
+LIST_OPS = ('append', 'insert', 'remove', 'pop', 'pop_default', 'set', 'setitem', 'extend', 'sort', 'sort_rev', 'index', 'count', 'get', 'reset', 'sort_rev_mixed')
 DICT_OPS = ('set', 'setitem', 'setdefault', 'setdefault_nodefault', 'pop', 'pop_default', 'update', 'clear', 'get', 'get_default', 'getitem', 'contains', 'len', 'reset')
 SET_OPS = ('add', 'remove', 'discard', 'update', 'clear', 'contains', 'len', 'reset', 'pop_single')
 CNT_OPS = ('set', 'add', 'sub', 'inc', 'get')
@@ -70,6 +72,8 @@ def _list_op(inp, i, op, b, ref):
         'count': (lambda: b.count(x), lambda: ref.count(x)),
         'get': (lambda: (b.get(pos), b[pos]), lambda: (ref[pos], ref[pos])),
         'reset': (lambda: b.reset([x, y], **D), lambda: ref.__init__([x, y])),
+        # equal but distinguishable elements: a descending sort must be stable like list.sort(reverse=True)
+        'sort_rev_mixed': (lambda: (b.extend([1, True, 1.0, 0, False], **D), b.sort(reverse=True, **D))[1], lambda: (ref.extend([1, True, 1.0, 0, False]), ref.sort(reverse=True))[1]),
     }[op]
 
 
